@@ -123,6 +123,27 @@ impl<T: Unpin> Future for Gate<T> {
         }
     }
 }
+/// C09: an operand expression whose evaluation creates a temporary with a `Drop` (a lock guard, say): the temporary
+/// must be gone before the operand's result is awaited, or a continuation that needs the lock never finishes
+pub static mut HELD: u8 = 0;
+pub struct HeldGuard;
+impl Drop for HeldGuard { fn drop(&mut self) { unsafe { HELD -= 1; } } }
+pub fn hold_guard() -> HeldGuard { unsafe { HELD += 1; } HeldGuard }
+pub struct WaitReleased;
+impl Future for WaitReleased {
+    type Output = ();
+    fn poll(self: Pin<&mut Self>, cx: &mut Context<'_>) -> Poll<()> {
+        if unsafe { HELD } > 0 { cx.waker().wake_by_ref(); Poll::Pending } else { Poll::Ready(()) }
+    }
+}
+impl HeldGuard {
+    pub fn cont<F: Future<Output = u8> + 'static>(&self, k: u8) -> impl FnOnce(F) -> Pin<Box<dyn Future<Output = u8>>> {
+        move |f: F| -> Pin<Box<dyn Future<Output = u8>>> { Box::pin(async move { let x = f.await; WaitReleased.await; x.wrapping_add(k) }) }
+    }
+    pub fn cont_r<F: Future<Output = Result<u8, u8>> + 'static>(&self, k: u8) -> impl FnOnce(F) -> Pin<Box<dyn Future<Output = Result<u8, u8>>>> {
+        move |f: F| -> Pin<Box<dyn Future<Output = Result<u8, u8>>>> { Box::pin(async move { let x = f.await?; WaitReleased.await; Ok(x.wrapping_add(k)) }) }
+    }
+}
 pub fn bump_mut(c: &mut u8) -> &mut u8 { *c = c.wrapping_add(1); c }
 pub fn gate<T: Unpin>(pending: u8, code: u16, value: T) -> Gate<T> { Gate { pending, value: Some(value), code } }
 
